@@ -62,6 +62,9 @@ def check(ck: Checker) -> None:
     _r7.protect_always_chmods(ck, "C07.localtrust")
     _r7.exists_missing_only_by_check(ck, "C07.exists")
     _r7.failed_copy_never_trusted(ck, "C07.verify")
+    from . import round8 as _r8
+
+    _r8.post_copy_loop_always_runs(ck, "C07.verify")
 
 
 
